@@ -3,6 +3,8 @@ package sym
 import (
 	"fmt"
 	"go/token"
+	"go/types"
+	"reflect"
 	"strings"
 	"time"
 
@@ -242,5 +244,49 @@ func init() {
 			}
 		}
 		return Struct{mkInt(0, 64), SymInt{t}, loc}, true
+	}
+}
+
+// internal.valueXMLName reads the xml struct tag of the XMLName field; the
+// real function does this through reflect, here go/types supplies the tag.
+func init() {
+	intrinsics["github.com/emersion/go-webdav/internal.valueXMLName"] = func(in *Interp, fr *frame, a []Value) (Value, bool) {
+		zeroName := Struct{"", ""}
+		v := a[0].(Iface)
+		if v.T == nil {
+			panic(runtimeError("invalid memory address or nil pointer dereference (reflect.TypeOf(nil).Kind)"))
+		}
+		t := v.T
+		for {
+			p, ok := t.Underlying().(*types.Pointer)
+			if !ok {
+				break
+			}
+			t = p.Elem()
+		}
+		st, ok := t.Underlying().(*types.Struct)
+		if !ok {
+			return Tuple{zeroName, in.newError("webdav: " + types.TypeString(v.T, nil) + " is not a struct")}, true
+		}
+		for i := 0; i < st.NumFields(); i++ {
+			f := st.Field(i)
+			if f.Name() != "XMLName" {
+				continue
+			}
+			if types.TypeString(f.Type(), nil) != "encoding/xml.Name" {
+				return Tuple{zeroName, in.newError("webdav: XMLName isn't an xml.Name")}, true
+			}
+			tag := reflect.StructTag(st.Tag(i)).Get("xml")
+			if tag == "" {
+				return Tuple{zeroName, in.newError("webdav: XMLName is missing an xml tag")}, true
+			}
+			name := strings.Split(tag, ",")[0]
+			parts := strings.Split(name, " ")
+			if len(parts) != 2 {
+				return Tuple{zeroName, in.newError("webdav: expected a namespace and local name in XMLName's xml tag")}, true
+			}
+			return Tuple{Struct{parts[0], parts[1]}, Iface{}}, true
+		}
+		return Tuple{zeroName, in.newError("webdav: missing an XMLName struct field")}, true
 	}
 }
